@@ -1202,9 +1202,13 @@ def pins(ctx, sf, st, eng, rep, n, D, o, rp):
         if is_exc(d10) or np.shape(d10) != (10, 10):
             ctx.fail("dm:gaussian:default-cutoff", f"gaussian dm() without cutoff has shape {np.shape(d10)}", rp)
     try:
+        eng.backend.squeeze(0.25, 0.3, n - 1)
+        squeezed = eng.backend.state()
+        if st == squeezed:
+            ctx.fail(f"eq:{rep}:different-states-equal", f"{rep}: the state compares equal to the state squeezed by 0.25 in mode {n - 1}", rp)
         eng.backend.displacement(0.3, 0.4, 0)
         moved = eng.backend.state()
-        if st == moved:
+        if squeezed == moved:
             ctx.fail(f"eq:{rep}:different-states-equal", f"{rep}: the state compares equal to the state displaced by 0.3", rp)
     except Exception as e:  # noqa: BLE001
         ctx.fail(f"eq:{rep}:raises-{exc_name(e)}", f"{rep}: comparing with a displaced state raised {exc_name(e)}", rp)
@@ -1406,9 +1410,9 @@ def check_bosonic_vs_fock_once(ctx, sf, spec, D, seed):
                                                   "fidelity_vacuum", "fidelity_coherent", "fidelity_coherent0")]
     sub = {k: of[k] for k in keys if not is_exc(of[k])}
     compare(ctx, "bosonic", ob, sub, tolF, "fock-mixed-representation", rp)
-    # the methods that hand every component to thewalrus: thewalrus conjugates the means, which is only right for real ones
+    # the methods that evaluate every component in the Fock basis (complex means: SF's own analytically continued routine)
     sub = {k: of[k] for k in of if k.split(":")[0] in walrus and not is_exc(of[k])}
-    compare(ctx, "bosonic", ob, sub, tolF, "fock-mixed-representation" + (":complex-means" if cplx else ""), rp)
+    compare(ctx, "bosonic", ob, sub, tolF, "fock-mixed-representation", rp)
     e = {"purity": fk.purity()}
     compare(ctx, "bosonic", ob, e, max(tolF, 1e-4), "fock-mixed-representation", rp)
     internal_identities(ctx, "bosonic", ob, n, D, rp, 1e-8)
@@ -1541,12 +1545,12 @@ def run(ctx, sf):
         ctx.tally("corpus")
         guarded(ctx, rp, lambda: run_item(ctx, sf, rp))
     if ctx.proof_ok:
-        corr_fock(ctx, sf, ctx.n(660, 6600))
-        corr_gauss(ctx, sf, ctx.n(360, 3600))
+        corr_fock(ctx, sf, ctx.n(560, 6000))
+        corr_gauss(ctx, sf, ctx.n(330, 3300))
         corr_bosonic(ctx, sf, ctx.n(250, 2500))
     check_post(ctx, sf, ctx.n(150, 1500))
     kinds = ["product", "product+bs", "mixed", "pure"]
-    for it in range(ctx.n(20, 200)):
+    for it in range(ctx.n(16, 180)):
         kind = kinds[it % 4]
         n = [2, 2, 3, 2, 1, 3, 2, 4][it % 8]
         if ctx.tier == "quick" and n == 3 and kind != "product" and it % 3:
@@ -1556,7 +1560,7 @@ def run(ctx, sf):
         D = {1: 14, 2: 11, 3: 7, 4: 6}[n]
         rp = dict(kind="cross", spec=spec, hbar=hbar, cutoff=D, seed=rng.getrandbits(30))
         guarded(ctx, rp, lambda: run_item(ctx, sf, rp))
-    for it in range(ctx.n(12, 120)):
+    for it in range(ctx.n(10, 110)):
         n = [2, 1, 2, 3][it % 4]
         rp = dict(kind="fock-only", spec=fock_nongauss_spec(rng, n), cutoff={1: 9, 2: 7, 3: 5}[n], pure=it % 2 == 0,
                   seed=rng.getrandbits(30))
@@ -1565,7 +1569,7 @@ def run(ctx, sf):
         n = [2, 1, 2][it % 3]
         rp = dict(kind="bosonic-vs-fock", spec=bosonic_nongauss_spec(rng, n), cutoff={1: 16, 2: 13}[n], seed=rng.getrandbits(30))
         guarded(ctx, rp, lambda: run_item(ctx, sf, rp))
-    for it in range(ctx.n(5, 60)):
+    for it in range(ctx.n(4, 50)):
         spec = holes_spec(rng)
         rp = dict(kind="holes", spec=spec, cutoff=6 if spec["n"] == 3 else 5, seed=rng.getrandbits(30))
         guarded(ctx, rp, lambda: run_item(ctx, sf, rp))
